@@ -39,6 +39,7 @@ func authnInline(P *Program) func(*ssa.Function) bool {
 }
 
 func runC15(c *Ctx) {
+	defer checkContextPropagated(c, "C15.R11")
 	defer checkParseSignatureFirst(c, "C15.R10")
 	defer checkJWKSCacheKey(c, "C15.R8")
 	defer checkClientGetters(c, "C15.R9", clientGetter{"DefaultOpenIDConnectClient", "GetTokenEndpointAuthSigningAlgorithm", "TokenEndpointAuthSigningAlgorithm", "RS256"}, clientGetter{"DefaultOpenIDConnectClient", "GetJSONWebKeys", "JSONWebKeys", ""}, clientGetter{"DefaultOpenIDConnectClient", "GetJSONWebKeysURI", "JSONWebKeysURI", ""})
@@ -223,6 +224,12 @@ func c15R1(c *Ctx) {
 				return s.Op == "lookup" && len(s.Args) == 2 && s.Args[1].Key() == tStr("exp").Key()
 			}) {
 				fail("exp-typed", p, "the jti is registered with an expiry that is not the assertion's exp claim")
+			} else if sj.Arg(2).Mentions(func(s *Term) bool {
+				// NumericDate is seconds: the claim is converted, never scaled or offset on the way to time.Unix
+				return s.Op == "bin" && len(s.Args) == 2 && (s.Name == "/" || s.Name == "*" || s.Name == "+" || s.Name == "-" || s.Name == ">>" || s.Name == "<<") &&
+					(s.Args[0].Mentions(func(x *Term) bool { return x.Op == "lookup" }) || s.Args[1].Mentions(func(x *Term) bool { return x.Op == "lookup" }))
+			}) {
+				fail("exp-typed", p, "the jti is registered with an expiry computed by arithmetic on the exp claim (a unit slip forgets the jti early)")
 			}
 		}
 		audOK := false
